@@ -68,6 +68,11 @@ ASSUME Run(B7, E(I(2), I(5)), FT).v = I(30) /\ Run(B8, E(I(2), I(5)), FT).st = "
 ASSUME HasLoop(B6) /\ ~HasLoop(B7) /\ Assigned(B7) = {"y", "i"} /\ StmtCount(B6) = 4
 ASSUME \A pt \in {E(I(i), I(j)) : i, j \in {0 - 1, 0, 1, 2}} : PWAgrees(<<"a", "b">>, B7, FT, pt, RefMode)
 
+\* chained assignment: both targets bound, the expression evaluated once
+B10 == <<Chain(<<"y", "b">>, Bin("mul", a, Num(2))), Ret(Bin("add", y, Bin("mul", Num(3), b)))>>
+ASSUME Run(B10, E(I(1), I(5)), FT).v = I(8) /\ Assigned(B10) = {"y", "b"}
+ASSUME \A pt \in {E(I(i), I(j)) : i, j \in {0 - 1, 0, 1, 2}} : PWAgrees(<<"a", "b">>, B10, FT, pt, RefMode)
+
 \* reference translation, and the two wrong instances
 Pts == {E(I(i), I(j)) : i, j \in {0 - 1, 0, 1, 2}}
 Bs == {B1, B2, B3, B4, B5}
